@@ -1488,3 +1488,72 @@ def orc_c03(case, obs):
 
 
 prop("C03", ["c03_history_invariant", "c03_verified_only", "c03_train_opened", "c03_length_exact"], ["DEC"], gen_c03, [orc_c03])
+
+
+# ------------------------------------------------------------------------------------------------
+# C20 utils structs vs codec
+# ------------------------------------------------------------------------------------------------
+def orc_c20(case, obs):
+    bad = []
+    for op, ob in zip(case.ops, obs):
+        t = op.split(" ")
+        if t[0] == "UGEN":
+            k, gl = t[1], int(t[2])
+            bl, seed = int(t[-2]), int(t[-1])
+            if k == "C":
+                pkt = build_complete(int(t[3]), t[4], tok_bytes(t[5]))
+            elif k == "F":
+                pkt = build_first(int(t[3]), int(t[4]), int(t[5]), t[6], tok_bytes(t[7]))
+            elif k == "I":
+                pkt = build_inter(int(t[3]), tok_bytes(t[4]))
+            else:
+                pkt = build_end(int(t[3]), tok_bytes(t[4]), int(t[5]))
+            wf = (gl == len(pkt) - 2) and gl < 4096
+            if wf and bl >= len(pkt):
+                exp = pkt + gen_bytes(bl, seed)[len(pkt):]
+                if ob != "ok " + hx(exp):
+                    bad.append("generate(%s) wrote %s..., the codec layout is %s..." % (op[:50], ob[:40], hx(pkt)[:40]))
+        elif t[0] == "UPARSE":
+            data = tok_bytes(t[2])
+            p = parse_packet(data)
+            if isinstance(p, str) or p.kind != t[1] or p.gse_len + 2 > len(data):
+                continue
+            mins = {"C": 2 + LT_LEN[p.lt], "F": 5 + LT_LEN[p.lt], "I": 1, "E": 5}[p.kind]
+            if p.gse_len < mins:
+                continue
+            w, d = kv(ob)
+            if w[:1] != ["ok"]:
+                bad.append("parse rejects a well-formed %s packet: %s" % (p.kind, ob[:60]))
+                continue
+            exp = {"gse_len": str(p.gse_len)}
+            if p.kind in ("C", "F"):
+                # utils structs know no extensions: protocol type is the raw field, pdu is everything after the label
+                raw_pt = int.from_bytes(data[(2 if p.kind == "C" else 5):(4 if p.kind == "C" else 7)], "big")
+                exp["protocol_type"] = str(raw_pt)
+                exp["label"] = p.label
+                exp["pdu"] = hx(data[(4 if p.kind == "C" else 7) + LT_LEN[p.lt]:p.gse_len + 2])
+            if p.kind == "F":
+                exp["frag_id"], exp["total_length"] = str(p.fid), str(p.total)
+            if p.kind in ("I", "E"):
+                exp["frag_id"] = str(p.fid)
+                exp["pdu"] = hx(p.payload)
+            if p.kind == "E":
+                exp["crc"] = str(p.crc)
+            for kx, vx in exp.items():
+                if d.get(kx) != vx:
+                    bad.append("parse(%s packet): %s=%s, the codec reads %s" % (p.kind, kx, d.get(kx), vx))
+                    break
+    # the same fields through the encapsulator: byte-identical packet
+    ops = case.ops
+    for i, op in enumerate(ops):
+        if op.startswith("UGEN C") and ops[-1].startswith("ENCAP"):
+            t, e = op.split(" "), EncObs(obs[-1])
+            et = ops[-1].split(" ")
+            if e.ok and e.status == "C" and et[4] == t[4] and int(t[2]) == e.n - 2 and obs[i].startswith("ok "):
+                if bytes.fromhex(obs[i][3:])[:e.n] != e.pkt:
+                    bad.append("utils generate and encap differ for the same fields")
+            break
+    return bad
+
+
+prop("C20", ["c20_roundtrip", "c20_same_as_encap", "c20_same_as_encap_frag"], ["UTL"], no_cases, [orc_c20])
